@@ -9,12 +9,12 @@ FUNCS = ["data:Duration.__eq__", "data:Duration.__abs__", "data:Duration.__hash_
          "data:Duration.__str__", "parsers:DurationParser.parse", "ghost:dur_text_round_trip"]
 LEMMAS = []
 CANARIES = ["canary.week52"]
-EXPLANATION = ("PROVED for integer component values (all 63 unit subsets x both signs, weeks, empty): the REAL Duration.__str__ executed symbolically emits exactly the designator spelling written from the property; the REAL DurationParser.parse executed on designator forms with symbolic number spellings (integers; comma and point decimals for the time units; leading '-') returns exactly those component values - regex matching on a form being replaced by the lexing lemma of pyvc/textlex.py (priority alternative + unique split) whose hypotheses are regular-language obligations discharged by z3 on the real DURATION_REGEXES and cross-checked on samples with re; the composition parse(str(d)) has d's fields, equals d, hashes equally and prints the same text (ghost program executing both real functions); the Duration value contracts (__eq__, __abs__, __hash__). BOUNDED (str(float)/float(str) are outside the modelled subset): parse(str(d)) == d and str fixpoint over all 63 unit subsets x both signs x integer/decimal values, weeks, empty; designator faithfulness; the date-time-like spelling (basic and extended).")
+EXPLANATION = ("PROVED for integer component values (all 63 unit subsets x both signs, weeks, empty): the REAL Duration.__str__ executed symbolically emits exactly the designator spelling written from the property; the REAL DurationParser.parse executed on designator forms with symbolic number spellings (integers; comma and point decimals for the time units; leading '-') returns exactly those component values - regex matching on a form being replaced by the lexing lemma of pyvc/textlex.py (priority alternative + unique split) whose hypotheses are regular-language obligations discharged by z3 on the real DURATION_REGEXES and cross-checked on samples with re; the composition parse(str(d)) has d's fields, equals d, hashes equally and prints the same text (ghost program executing both real functions); the DATE-TIME-LIKE spelling P[YYYY]-[MM]-[DD][T[hh]:[mm]:[ss]] and its basic form, on symbolic digit fields: parse returns the Duration whose years, months, days, hours, minutes, seconds are exactly the spelled numbers, i.e. the same duration as the designator spelling with those numbers (the real fall-through of DurationParser.parse into TimePointParser(is_duration=True) executed); the Duration value contracts (__eq__, __abs__, __hash__). BOUNDED (str(float)/float(str) are outside the modelled subset): parse(str(d)) == d and str fixpoint over all 63 unit subsets x both signs x integer/decimal values, weeks, empty; designator faithfulness; the date-time-like spelling (basic and extended).")
 ASSUMPTIONS = ["str(float) (decimal component values in the str direction) is outside the modelled subset: bounded grid",
                "int(str(n)) == n and str(n) of n >= 0 is a non-empty ASCII digit run (CPython axiom)",
                "float() of a decimal text is the real number it denotes (floats as reals)",
                "split lemma of pyvc/textlex.py (10-line induction on strings, stated in the module) - its hypotheses are machine-checked",
-               "the date-time-like spelling goes through TimePointParser: bounded grid plus C07's proofs"]
+               "TimePointParser(...) inside parse_timepoint_expression is evaluated natively on its concrete arguments (the real constructor builds the regex tables), not verified"]
 LEVEL_TEXT = "Bounded grid plus proved value contracts: other."
 LEVEL_NOTE = "see DESIGN.md A.4 (as built) and section 5/C10 (plan)"
 
